@@ -841,10 +841,10 @@ pub struct HugeOpen {
 }
 impl Space for HugeOpen {
     fn name(&self) -> String {
-        format!("{:?}: open_stream on a file with 0x10010 program headers and 0xff20 section headers (PN_XNUM / e_shnum = 0 escapes), reader at 4 start positions, every single deviation at every I/O call of opening; 2 encodings", self.which)
+        format!("{:?}: open_stream on files with 0x10010 program headers and 0xff20 or 3 section headers (PN_XNUM with and without the e_shnum = 0 escape), reader at 4 start positions, every single deviation at every I/O call of opening; 2 encodings", self.which)
     }
     fn size(&self) -> u64 {
-        2
+        4
     }
     fn chunk_hint(&self) -> u64 {
         1
@@ -853,15 +853,17 @@ impl Space for HugeOpen {
         600
     }
     fn describe(&self, idx: u64) -> Value {
-        json!({"encoding": ENCS[if idx == 0 { 2 } else { 1 }].name(), "program_headers": 0x10010, "section_headers": 0xff20})
+        json!({"encoding": ENCS[if idx % 2 == 0 { 2 } else { 1 }].name(), "program_headers": 0x10010, "section_headers": if idx < 2 { 0xff20 } else { 3 }})
     }
     fn run(&self, idx: u64, out: &mut Outcome) {
         use super::c05::*;
-        let enc = ENCS[if idx == 0 { 2 } else { 1 }];
-        let e = reference_encoding(0xff20, 0x10010, 2);
+        let enc = ENCS[if idx % 2 == 0 { 2 } else { 1 }];
+        // both escapes (e_shnum = 0 and PN_XNUM), or PN_XNUM alone with an ordinary section count
+        let nsec = if idx < 2 { 0xff20 } else { 3 };
+        let e = reference_encoding(nsec, 0x10010, 2);
         let shs = layout(Kind::Shdr, enc.class).size as u64;
         let phs = layout(Kind::Phdr, enc.class).size as u64;
-        let img = make(enc, 0xff20, 0x10010, 2, Placement::PhThenSh, &e, shs, phs);
+        let img = make(enc, nsec, 0x10010, 2, Placement::PhThenSh, &e, shs, phs);
         let bytes = Arc::new(img.bytes);
         let image = Image { name: format!("huge-tables/{}", enc.name()), bytes: bytes.clone(), shdr_pool: Vec::new(), phdr_pool: Vec::new(), names: Vec::new(), ops: Vec::new() };
         let mut m = SModel::new(image, self.which, 1);
